@@ -78,7 +78,8 @@ def run(chk):
             n_add += 1
 
             def via(n, ptxt=ptxt):
-                for pat in ("self._acquired.remove($Q)", "self._release_acquired($K, $Q)"):
+                # self._release(key, p, ...) un-counts p first thing unless the connector was closed (then close already cleared the sets)
+                for pat in ("self._acquired.remove($Q)", "self._release_acquired($K, $Q)", "self._release($K, $Q, ...)"):
                     for _c, bb in K.node_find(n, pat):
                         if norm.raw(bb["Q"]) == ptxt:
                             return True
@@ -148,6 +149,24 @@ def run(chk):
                               "the wait for a slot is not guarded by `no capacity` (off-by-one or inverted test lets a request through or blocks it)",
                               path_condition=norm.fmt_cnf(wpc))
 
+    # ---- C07.leak: a connection that exists but is not tracked yet is closed on every exceptional exit --------------------------------------
+    # between `proto = await self._create_connection(...)` and `self._acquired.add(proto)` nobody but this frame knows the connection: if a
+    # trace callback raises or the caller is cancelled there, dropping only the placeholder leaves the socket open for ever (close() of the
+    # connector cannot find it)
+    created = [n for n in g.nodes if n.in_finally_copy is None and n.kind == "stmt" and isinstance(n.ast, ast.Assign) and "self._create_connection(" in norm.raw(n.ast.value)]
+    if not created:
+        chk.analysis_error("C07.leak: `proto = await self._create_connection(...)` not found in connect()")
+    else:
+        pname = norm.raw(created[0].ast.targets[0])
+        owned = lambda n: K.node_has(n, f"{pname}.close()") or K.node_has(n, f"self._acquired.add({pname})") or K.node_has(n, f"self._release($K, {pname}, ...)")
+        K.must_pass(chk, "C07.leak", connect, None, owned, "connect(): a freshly created connection is closed or tracked on every exit, cancellation included",
+                    model=CANCEL, start_edges=[(created[0], "n")], construct=K.short(created[0].ast, 60), missing=f"{pname}.close() on the exceptional exits before {pname} is tracked")
+    gg = cfg_of(get.node)
+    popped = [n for n in gg.nodes if n.in_finally_copy is None and K.node_has(n, "self._acquired.add(proto)")]
+    if popped:
+        closes = lambda n: K.node_has(n, "self._release($K, proto, should_close=True)") or K.node_has(n, "proto.close()") or (n.kind == "stmt" and isinstance(n.ast, ast.Return) and n.ast.value is not None and "proto" in norm.raw(n.ast.value))
+        K.must_pass(chk, "C07.leak", get, None, closes, "_get(): a pooled connection taken out of the pool is handed out or closed on every exit, cancellation included",
+                    model=CANCEL, start_edges=[(popped[0], "n")], construct="self._acquired.add(proto)", missing="close of the connection when the reuse trace fails")
     # ---- C07.atomic (T3) ---------------------------------------------------------------------------
     none_returns_ok = _get_none_summary(chk, repo, get)
 
@@ -163,8 +182,16 @@ def run(chk):
         return none_returns_ok and n.kind == "test" and K.node_has(n, "await self._get($K, $T)") and M.contains(n.ast, "$X is not None")
 
     if ph_nodes:
-        tests = [n for n in g.nodes if n.kind == "test" and K.node_has(n, "self._available_connections($K)")]
-        starts = [(t, "F") for t in tests]
+        # the edge on which "capacity is available" has just been established: the outcome of a test that is *only* the capacity comparison
+        starts = []
+        for t in [n for n in g.nodes if n.kind == "test" and K.node_has(n, "self._available_connections($K)")]:
+            cl = norm.cnf_raw(t.ast, True)
+            if len(cl) == 1 and len(cl[0]) == 1:
+                lit = next(iter(cl[0]))
+                avail_when_true = (M.match_text("self._available_connections($K) > 0", lit.text) is not None) == lit.pos
+                starts.append((t, "T" if avail_when_true else "F"))
+        if not starts:
+            chk.analysis_error("C07.atomic.reserve: no plain capacity test found in connect()")
         waits = K.nodes_matching(connect, "self._wait_for_available_connection($K, $T)")
         _atomic(chk, "C07.atomic.reserve", connect, repo, start_edges=starts + [(w, "n") for w in waits], b_pred=lambda n: n in ph_nodes,
                 what="no other task can run between the capacity test (or the wake-up) and the placeholder reservation",
